@@ -118,6 +118,12 @@ def wicks_cases(tier, seed):
     for k1, k2 in itertools.product(["F", "Fd"], repeat=2):
         for n1, n2 in itertools.product(POOL, repeat=2):
             yield {"groups": [[[k1, n1]], [[k2, n2]]], "no": [False, False]}
+    # the same operator at two non adjacent positions of a string
+    for names in (["i", "j", "p", "j"], ["p", "q", "p", "q"], ["a", "b", "a", "q"], ["i", "a", "i", "a"]):
+        for kinds in (["Fd", "F", "Fd", "F"], ["F", "Fd", "F", "Fd"]):
+            yield {"groups": [[[k, n] for k, n in zip(kinds, names)]], "no": [False]}
+    yield {"groups": [[["Fd", "i"], ["F", "a"]], [["Fd", "p"], ["F", "q"]], [["Fd", "a"], ["F", "i"]]],
+           "no": [False, False, False], "deltas": True}
     n = 120 if tier == "quick" else 3000
     for _ in range(n):
         ngroups = rng.randint(1, 3)
@@ -142,7 +148,12 @@ def wicks_cases(tier, seed):
                     if o[1] in "pq":
                         o[1] = rng.choice("ijab")
         flat = [tuple(o) for g in groups for o in g]
-        if len(set(flat)) != len(flat):
+        # the same operator may occur several times in a string, but sympy
+        # merges ADJACENT identical operators into a Pow, and a normal ordered
+        # group with a repeated operator vanishes on construction
+        if any(x == y for x, y in zip(flat, flat[1:])):
+            continue
+        if any(no and len({tuple(o) for o in g}) != len(g) for g, no in zip(groups, nos)):
             continue
         yield {"groups": groups, "no": nos, "deltas": rng.random() < 0.3}
 
